@@ -316,9 +316,12 @@ def finish(run, level, coverage, assumptions, kn, viol, confirm=None, extra=None
     ev["coverage"].setdefault("tlc_runs", run.tlc_stats["runs"])
     if extra:
         ev.update(extra)
-    os.makedirs(os.path.join(VERIF, "evidence"), exist_ok=True)
-    with open(os.path.join(VERIF, "evidence", run.pid + ".json"), "w") as f:
-        json.dump(ev, f, indent=1)
+    if REPO == "/repo":
+        os.makedirs(os.path.join(VERIF, "evidence"), exist_ok=True)
+        with open(os.path.join(VERIF, "evidence", run.pid + ".json"), "w") as f:
+            json.dump(ev, f, indent=1)
+    else:
+        log("[note] VERIF_REPO=%s: evidence file not rewritten (evidence is only written for /repo itself)" % REPO)
     log("[done] %s tier=%s seed=%d rc=%d wall=%.1fs violations=%d known=%s" % (
         run.pid, run.tier, run.seed, rc, time.time() - run.t0, nviol, {k: len(v) for k, v in kn.items()}))
     return rc
